@@ -10,7 +10,6 @@
 //verif:stub fmt.Sprintf -> rt.Sprintf
 //verif:stub fmt.Sprint -> rt.Sprint
 //verif:stub (crypto/x509/pkix.Name).String -> rt.StubNameString
-//verif:stub (encoding/asn1.ObjectIdentifier).String -> rt.StubOIDString
 //verif:merge (time.Time).Before
 //verif:merge (time.Time).After
 //verif:merge (time.Time).Equal
@@ -59,6 +58,7 @@ func BigEq(a, b *big.Int) bool
 func BigLess(a, b *big.Int) bool
 func BigVal(a *big.Int) uint64
 func BigOf(v uint64) *big.Int
+func BigSet(dst *big.Int, v uint64)
 
 // Havoc returns an arbitrary value of type T, materialised lazily field by field.
 func Havoc[T any](name string) T {
@@ -67,6 +67,9 @@ func Havoc[T any](name string) T {
 	return z
 }
 func havocHook(name string)
+
+// HavocInto stores an arbitrary value of the pointee type through ptr (what a decoder leaves behind).
+func HavocInto(ptr any, name string)
 
 // ---- assumptions, assertions, coverage
 func Assume(c bool)
